@@ -31,6 +31,9 @@ def match_finding(findings, job, trace, verdict, at):
         c = f.get("class")
         if not c or not any(verdict.startswith(x) for x in c["clauses"]):
             continue
+        if c["predicate"] == "decimal_nonfinite_via" and e["op"] == "via" and e["how"] in c["formats"] and e["a"]["k"] == "lit" and e["a"]["dt"].endswith("#decimal") \
+                and e["a"]["v"].lstrip("+-").lower() in ("infinity", "inf", "nan", "snan"):
+            return f
         if c["predicate"] == "non_normalised_via" and e["op"] == "via" and e["how"] in c["formats"] and e["a"]["k"] == "lit" and e["a"]["dt"]:
             from rdflib import Literal, URIRef
             a = e["a"]
@@ -52,7 +55,7 @@ def pool(variant, maxlen):
         T.append({"k": "var", "v": (s or "v0").replace(" ", "_").replace(":", "_").replace("/", "_").replace("#", "_").replace(".", "_")})
     T += [lit("a"), lit("a", lang="en"), lit("a", lang="EN"), lit("a", lang="en-US"), lit("a", lang="en-us"), lit("a", lang="fr"), lit("a", dt=XSD + "string"),
           lit("urn:x:a"), lit("b"), lit(""), lit("", lang="en"), lit("", dt=XSD + "string")]
-    typed = [("1", "integer"), ("01", "integer"), ("+1", "integer"), ("1.0", "decimal"), ("1.00", "decimal"), ("1", "decimal"), ("1.0E0", "double"), ("1", "double"), ("NaN", "double"),
+    typed = [("1", "integer"), ("01", "integer"), ("+1", "integer"), ("1.0", "decimal"), ("1.00", "decimal"), ("1", "decimal"), ("1.0E0", "double"), ("1", "double"), ("NaN", "double"), ("NaN", "decimal"), ("sNaN", "decimal"), ("Infinity", "decimal"),
              ("INF", "double"), ("-INF", "double"), ("NaN", "float"), ("true", "boolean"), ("1", "boolean"), ("false", "boolean"), ("abc", "integer"), ("", "integer"), ("2020-01-01", "date"),
              ("2020-01-01T00:00:00", "dateTime"), ("2020-01-01T00:00:00Z", "dateTime"), ("2020-01-01T00:00:00+00:00", "dateTime"), ("2020-13-45", "date"), ("P1D", "duration"), ("PT24H", "duration"),
              ("AQID", "base64Binary"), ("0a", "hexBinary"), ("0A", "hexBinary"), ("x", "anyURI")]
